@@ -285,7 +285,19 @@ def key(c):
 FUZZ_ALLOWED = ("assert", "resource")   # abnormal ends that are a *report*: FEAT assertion message / refused allocation
 
 
-def judge(chk, cases, results, harness, stats):
+def self_contained(c, docs):
+    """replay object of a case: everything --replay needs (generated documents / fuzz bases are temporary files)"""
+    rp = {"kind": "case", "case": c}
+    if c["t"] == "mut":
+        rp["doc"] = {k: docs[c["id"]][k] for k in ("id", "fam", "dim", "indent", "in", "out")}
+    elif c["t"] == "fuzz" and c["name"].startswith("gen:"):
+        c2 = dict(c)
+        c2["text"] = "\n".join(docs[c["name"][4:]]["in"]) + "\n"
+        rp["case"] = c2
+    return rp
+
+
+def judge(chk, cases, results, harness, stats, docs):
     for c, r in zip(cases, results):
         t = c["t"]
         chk.count(key(c), True)
@@ -305,7 +317,9 @@ def judge(chk, cases, results, harness, stats):
             continue
         s = sig(c, r)
         desc = r.get("why") or ("outcome %s: %s" % (cls, (r.get("stderr") or "")[-500:]))
-        chk.violation(s, desc, {"kind": "case", "harness": harness, "case": c, "result": r})
+        rp = self_contained(c, docs)
+        rp.update({"harness": harness, "result": r})
+        chk.violation(s, desc, rp)
 
 
 # ------------------------------------------------------------------------------------------------------------------
@@ -368,7 +382,7 @@ def run(chk):
                    (asan, zcases, 90, ASAN_ENV)]
         for binary, cases, tmo, env in batches:
             res = vlib.run_cases(binary, cases, tmo=tmo, env=env)
-            judge(chk, cases, res, "c11_meshfile" + (" (asan)" if binary == asan else ""), stats)
+            judge(chk, cases, res, "c11_meshfile" + (" (asan)" if binary == asan else ""), stats, docs)
             if cases and cases[0]["t"] == "doc":
                 nok = 0
                 for c, r in zip(cases, res):
@@ -376,16 +390,14 @@ def run(chk):
                         nok += tok_compare(chk, c)
                 chk.extra["shipped_files_roundtrip_and_tokenizer_ok"] = nok
     finally:
-        keep = docs_path if any((rp or {}).get("case", {}).get("t") == "mut" for _, _, rp in chk.violations) else None
         for p in glob.glob(os.path.join(GEN, "*_%d*" % os.getpid())):
-            if p != keep:     # the documents of failing mutation cases stay for --replay
-                if os.path.isdir(p):
-                    shutil.rmtree(p, ignore_errors=True)
-                else:
-                    try:
-                        os.remove(p)
-                    except OSError:
-                        pass
+            if os.path.isdir(p):
+                shutil.rmtree(p, ignore_errors=True)
+            else:
+                try:
+                    os.remove(p)
+                except OSError:
+                    pass
 
     # summary of disagreements by signature (the replay file keeps only the first 50)
     bysig = {}
@@ -428,18 +440,26 @@ def run(chk):
 def replay(obj):
     std, = vlib.build(["c11_meshfile"])
     asan, = vlib.build(["c11_meshfile"], variant="asan")
+    ddir = os.path.join(GEN, "replay_docs_%d" % os.getpid())
+    os.makedirs(ddir, exist_ok=True)
     bad = 0
-    for v in obj["violations"]:
-        rp = v.get("replay") or {}
-        if rp.get("kind") != "case":
-            continue
-        c = rp["case"]
-        if c["t"] == "mut" and not os.path.exists(os.path.join(c["docs"], c["id"] + ".json")):
-            print("document file of the run is gone; re-run the check to regenerate: " + c["docs"])
-            continue
-        binary = asan if "asan" in (rp.get("harness") or "") else std
-        r = vlib.run_cases(binary, [c], tmo=60, shards=1, env=ASAN_ENV if binary == asan else None)[0]
-        print(json.dumps({"case": sig(c, r), "result": r})[:1500])
-        if r.get("ok") is not True:
-            bad += 1
+    try:
+        for v in obj["violations"]:
+            rp = v.get("replay") or {}
+            if rp.get("kind") != "case":
+                print(json.dumps(v.get("sig")), "(not a harness case: %s)" % rp.get("kind"))
+                continue
+            c = dict(rp["case"])
+            if c["t"] == "mut":
+                with open(os.path.join(ddir, c["id"] + ".json"), "w") as f:
+                    json.dump(rp["doc"], f)
+                c["docs"] = ddir
+            binary = asan if "asan" in (rp.get("harness") or "") else std
+            r = vlib.run_cases(binary, [c], tmo=120, shards=1, env=ASAN_ENV if binary == asan else None)[0]
+            c.pop("text", None)
+            print(json.dumps({"sig": sig(c, r), "case": c, "result": r})[:1500])
+            if r.get("ok") is not True:
+                bad += 1
+    finally:
+        shutil.rmtree(ddir, ignore_errors=True)
     return 1 if bad else 0
